@@ -252,6 +252,44 @@ def check_setup_symbolic(acc, loop):
     acc.state(name)
 
 
+def check_nested_stuck(acc, where, depth, kind):
+    """a path stops at an unsupported opcode *inside a nested call* (the test contract calling its own helper functions `depth` frames
+    deep), either in setUp() or in the test: the affected test must not be a clean PASS.  The control test check_ok() of the
+    'test' placement is unaffected and must stay PASS."""
+    funcs = {"hop0()": [0x0C, "STOP"]}
+    for d in range(1, depth):
+        funcs[f"hop{d}()"] = e2e.cheat_call(e2e.TEST, f"hop{d - 1}()", kind=kind) + ["STOP"]
+    enter = e2e.cheat_call(e2e.TEST, f"hop{depth - 1}()", kind=kind)
+    if where == "setup":
+        funcs["setUp()"] = enter + [("push", 1), "PUSH0", "SSTORE", "STOP"]
+        funcs["check_t(uint256)"] = e2e.if_then(["PUSH0", "SLOAD", ("push", 2), "EQ"], e2e.panic(1), "f") + ["STOP"]
+    else:
+        funcs["setUp()"] = ["STOP"]
+        funcs["check_t(uint256)"] = e2e.if_then(e2e.arg(0) + [("push", 7), "EQ"], enter, "a") + ["STOP"]
+        funcs["check_ok(uint256)"] = ["STOP"]
+    c = e2e.Contract("N", funcs)
+    rr = e2e.run_contract(c, funsigs=[f for f in funcs if f.startswith("check_")], options={"loop": 2, "solver_timeout_assertion": "10s"})
+    acc.count("contracts")
+    name = f"nested-stuck:{where}:depth={depth}:{kind}"
+    case = {"kind": "nested", "where": where, "depth": depth, "call": kind}
+    msgs = [m for (lvl, m) in rr.logs if lvl in ("WARNING", "ERROR")]
+    flagged = rr.exception is not None or any(("Encountered" in m or "internal-error" in m or "Unsupported" in m or "setUp" in m) for m in msgs)
+    by = rr.by_name() if rr.exception is None else {}
+    acc.count("tests", max(1, len(by)))
+    r = by.get("check_t(uint256)")
+    acc.outcome((where, depth, kind, r.exitcode if r is not None else None, flagged))
+    if r is not None and r.exitcode == 0 and not flagged:
+        acc.violation(f"stuck-pass:{name}", f"{name}: a path stops at an unsupported opcode {depth} call frame(s) deep in {'setUp()' if where == 'setup' else 'the test'}, "
+                      f"but check_t is a clean PASS (no warning, no error): {msgs[-2:]}", case)
+        return
+    if where == "test":
+        ok = by.get("check_ok(uint256)")
+        if ok is None or ok.exitcode != 0:
+            acc.violation(f"control:{name}", f"{name}: the unaffected control test check_ok is not PASS: {ok and ok.exitcode}", case)
+            return
+    acc.state(name)
+
+
 # ---------------------------------------------------------------------------
 
 
@@ -276,6 +314,10 @@ def shards(tier, seed):
             out.append({"kind": "setup", "N": N, "loop": loop})
     for loop in (1, 2, 3):
         out.append({"kind": "setupsym", "loop": loop})
+    for where in ("setup", "test"):
+        for depth in (1, 2, 3):
+            for kind in ("CALL", "STATICCALL"):
+                out.append({"kind": "nested", "where": where, "depth": depth, "call": kind})
     return rotate(out, seed)
 
 
@@ -289,6 +331,8 @@ def run_case(acc, s):
         check_invariant(acc, s["fns"], s["loop"], s["depth"])
     elif k == "setup":
         check_setup(acc, s["N"], s["loop"])
+    elif k == "nested":
+        check_nested_stuck(acc, s["where"], s["depth"], s["call"])
     else:
         check_setup_symbolic(acc, s["loop"])
 
